@@ -27,7 +27,19 @@ func (c *FnCtx) specEvalAt(st *State, e *SExpr, env map[string]*Term, old *State
 	// spec evaluation must not change the state: run on a scratch copy whose pc additions are discarded,
 	// except that definitional facts (fresh names) are kept in the SMT context.
 	c.specDepth++
-	defer func() { c.specDepth-- }()
+	st.noAssume++
+	if old != nil && old != st {
+		old.noAssume++
+	}
+	saveObls := len(c.obls)
+	defer func() {
+		c.specDepth--
+		st.noAssume--
+		if old != nil && old != st {
+			old.noAssume--
+		}
+		c.obls = c.obls[:saveObls]
+	}()
 	return c.sev(sc, e)
 }
 
@@ -89,6 +101,15 @@ func (c *FnCtx) sev(sc *specCtx, e *SExpr) *Term {
 		}
 		if t, ok := c.loopGhost[e.Name]; ok {
 			return t
+		}
+		if c.contract != nil {
+			for _, g := range c.contract.Ghosts {
+				if g.Name == e.Name {
+					if t, ok := c.env[e.Name]; ok {
+						return t
+					}
+				}
+			}
 		}
 		if t := c.lookupLocal(sc, e.Name); t != nil {
 			return t
